@@ -252,6 +252,194 @@ theorem C05_inner_join_is_filtered_cross (db : Sql.Db) (l r : Sql.From) (c : Exp
   cases l.eval db <;> simp
   cases r.eval db <;> simp
 
+/-! ### join reordering: associativity; predicate pushdown through a cross product -/
+
+/-- `(A, B), C` and `A, (B, C)` produce the same rows in the same order: together with
+`C05_cross_swap` every permutation of a comma join is the same multiset up to re-projection -/
+theorem C05_cross_assoc (a b c : List Row) :
+    (a.flatMap (fun x => b.map (fun y => x ++ y))).flatMap (fun xy => c.map (fun z => xy ++ z))
+      = a.flatMap (fun x => (b.flatMap (fun y => c.map (fun z => y ++ z))).map (fun yz => x ++ yz)) := by
+  rw [List.flatMap_assoc]
+  apply flatMap_congr'
+  intro x _
+  rw [List.flatMap_map, List.map_flatMap]
+  apply flatMap_congr'
+  intro y _
+  simp [List.map_map, Function.comp_def, List.append_assoc]
+
+/-- predicate pushdown to the left input: a conjunct that only looks at the left columns may
+be applied before the join -/
+theorem C05_pushdown_left (l r : List Row) (p : Row → Bool) (q : Row → Bool)
+    (h : ∀ a ∈ l, ∀ b ∈ r, p (a ++ b) = q a) :
+    (l.flatMap (fun a => r.map (fun b => a ++ b))).filter p
+      = (l.filter q).flatMap (fun a => r.map (fun b => a ++ b)) := by
+  induction l with
+  | nil => rfl
+  | cons a l ih =>
+    have ih' := ih (fun a' ha' => h a' (List.mem_cons_of_mem _ ha'))
+    have hrow : (r.map (fun b => a ++ b)).filter p = if q a then r.map (fun b => a ++ b) else [] := by
+      rw [List.filter_map]
+      have : r.filter (p ∘ fun b => a ++ b) = r.filter (fun _ => q a) := by
+        apply List.filter_congr
+        intro b hb; exact h a List.mem_cons_self b hb
+      rw [this]
+      have ht : r.filter (fun _ => true) = r := List.filter_eq_self.mpr (fun _ _ => rfl)
+      by_cases hq : q a <;> simp [hq, ht]
+    simp only [List.flatMap_cons, List.filter_append, hrow, ih', List.filter_cons]
+    by_cases hq : q a <;> simp [hq]
+
+/-- predicate pushdown to the right input -/
+theorem C05_pushdown_right (l r : List Row) (p : Row → Bool) (q : Row → Bool)
+    (h : ∀ a ∈ l, ∀ b ∈ r, p (a ++ b) = q b) :
+    (l.flatMap (fun a => r.map (fun b => a ++ b))).filter p
+      = l.flatMap (fun a => (r.filter q).map (fun b => a ++ b)) := by
+  induction l with
+  | nil => rfl
+  | cons a l ih =>
+    have ih' := ih (fun a' ha' => h a' (List.mem_cons_of_mem _ ha'))
+    have hrow : (r.map (fun b => a ++ b)).filter p = (r.filter q).map (fun b => a ++ b) := by
+      rw [List.filter_map]
+      congr 1
+      apply List.filter_congr
+      intro b hb; exact h a List.mem_cons_self b hb
+    simp only [List.flatMap_cons, List.filter_append, hrow, ih']
+
+/-- a conjunction in WHERE is two successive filters (what lets the optimizer split, push and
+reorder conjuncts) -/
+theorem C05_conjunct_split (rows : List Row) (p q : Row → Bool) :
+    rows.filter (fun r => p r && q r) = (rows.filter p).filter q := by
+  rw [List.filter_filter]
+  congr 1; funext r; exact Bool.and_comm _ _
+
+/-! ### the SQL-level equi join is the nested loop (hence the hash join) -/
+
+theorem filterM'_ok {α : Type} (f : α → Except Err Bool) (g : α → Bool) (l : List α)
+    (h : ∀ x ∈ l, f x = .ok (g x)) : Sql.filterM' f l = .ok (l.filter g) := by
+  induction l with
+  | nil => rfl
+  | cons x xs ih =>
+    have hx := h x List.mem_cons_self
+    have ih' := ih (fun y hy => h y (List.mem_cons_of_mem _ hy))
+    simp only [Sql.filterM', hx, ih', bind, Except.bind, pure, Except.pure, List.filter_cons]
+
+/-- keys are comparable: NULL, or both of the same type -/
+def keysComparable (x y : Value) : Prop := x = .null ∨ y = .null ∨ (Value.cmp? x y).isSome
+
+theorem cmp_eq_iff (x y : Value) (o : Ordering) (h : Value.cmp? x y = some o) :
+    (o == .eq) = decide (x = y) := by
+  cases x <;> cases y <;> simp [Value.cmp?] at h
+  · subst h
+    rename_i a b
+    by_cases hab : a = b
+    · subst hab; simp
+    · have : compare a b ≠ .eq := by
+        intro hc; exact hab (Std.compare_eq_iff_eq.mp hc)
+      cases hc : compare a b <;> simp_all
+  · subst h
+    rename_i a b
+    by_cases hab : a = b
+    · subst hab; simp
+    · have : compare a b ≠ .eq := by
+        intro hc; exact hab (Std.compare_eq_iff_eq.mp hc)
+      cases hc : compare a b <;> simp_all
+  · subst h
+    rename_i a b
+    cases a <;> cases b <;> decide
+
+/-- `l.i = r.j` evaluated on the concatenated row is TRUE exactly when `eqTrue` holds -/
+theorem eq_on_concat (w i j : Nat) (a b : Row) (ha : a.length = w) (hi : i < w) (hj : j < b.length)
+    (hc : keysComparable (a[i]?.getD .null) (b[j]?.getD .null)) :
+    (do Sql.isTrue (← (Expr.bin .eq (.col i) (.col (w + j))).eval (a ++ b)))
+      = .ok (eqTrue (a[i]?.getD .null) (b[j]?.getD .null)) := by
+  have h1 : (a ++ b)[i]? = a[i]? := List.getElem?_append_left (by omega)
+  have h2 : (a ++ b)[w + j]? = b[j]? := by
+    rw [List.getElem?_append_right (by omega)]; congr 1; omega
+  have hia : i < a.length := by omega
+  obtain ⟨x, hx⟩ : ∃ x, a[i]? = some x := ⟨a[i], List.getElem?_eq_getElem hia⟩
+  obtain ⟨y, hy⟩ : ∃ y, b[j]? = some y := ⟨b[j], List.getElem?_eq_getElem hj⟩
+  simp only [Expr.eval, h1, h2, hx, hy, Option.getD_some, bind, Except.bind] at hc ⊢
+  cases x with
+  | null => simp [evalBin, Sql.isTrue, Value.truthy, eqTrue, bind, Except.bind, pure, Except.pure]
+  | int xi =>
+    cases y with
+    | null => simp [evalBin, Sql.isTrue, Value.truthy, eqTrue, bind, Except.bind, pure, Except.pure]
+    | int yi =>
+      have := cmp_eq_iff (.int xi) (.int yi) _ rfl
+      simp [evalBin, Value.cmp?, cmpOp, Sql.isTrue, Value.truthy, eqTrue, bind, Except.bind, pure, Except.pure, TV.ofBool] at this ⊢
+      by_cases h : xi = yi <;> simp_all
+    | str _ => rcases hc with h | h | h <;> simp [Value.cmp?] at h
+    | bool _ => rcases hc with h | h | h <;> simp [Value.cmp?] at h
+  | str xs =>
+    cases y with
+    | null => simp [evalBin, Sql.isTrue, Value.truthy, eqTrue, bind, Except.bind, pure, Except.pure]
+    | str ys =>
+      have := cmp_eq_iff (.str xs) (.str ys) _ rfl
+      simp [evalBin, Value.cmp?, cmpOp, Sql.isTrue, Value.truthy, eqTrue, bind, Except.bind, pure, Except.pure, TV.ofBool] at this ⊢
+      by_cases h : xs = ys <;> simp_all
+    | int _ => rcases hc with h | h | h <;> simp [Value.cmp?] at h
+    | bool _ => rcases hc with h | h | h <;> simp [Value.cmp?] at h
+  | bool xb =>
+    cases y with
+    | null => simp [evalBin, Sql.isTrue, Value.truthy, eqTrue, bind, Except.bind, pure, Except.pure]
+    | bool yb =>
+      cases xb <;> cases yb <;> rfl
+    | int _ => rcases hc with h | h | h <;> simp [Value.cmp?] at h
+    | str _ => rcases hc with h | h | h <;> simp [Value.cmp?] at h
+
+/-- the reference evaluation of `FROM l INNER JOIN r ON l.i = r.j` over well-formed inputs is
+the nested-loop equi join on those key columns — so, with `C05_hash_inner_eq_nested`, the hash
+join returns the SQL-defined multiset -/
+theorem C05_sql_equi_join_is_nested (w i j : Nat) (ls rs : List Row)
+    (hw : ∀ a ∈ ls, a.length = w) (hi : i < w) (hj : ∀ b ∈ rs, j < b.length)
+    (hc : ∀ a ∈ ls, ∀ b ∈ rs, keysComparable (a[i]?.getD .null) (b[j]?.getD .null)) :
+    Sql.filterM' (fun row => do Sql.isTrue (← (Expr.bin .eq (.col i) (.col (w + j))).eval row))
+        (ls.flatMap (fun a => rs.map (fun b => a ++ b)))
+      = .ok (nestedLoop (fun a => a[i]?.getD .null) (fun b => b[j]?.getD .null) ls rs) := by
+  let g : Row → Bool := fun row => eqTrue (row[i]?.getD .null) (row[w + j]?.getD .null)
+  have hg : ∀ a ∈ ls, ∀ b ∈ rs, g (a ++ b) = eqTrue (a[i]?.getD .null) (b[j]?.getD .null) := by
+    intro a ha b hb
+    have hl := hw a ha
+    have h1 : (a ++ b)[i]? = a[i]? := List.getElem?_append_left (by omega)
+    have h2 : (a ++ b)[w + j]? = b[j]? := by
+      rw [List.getElem?_append_right (by omega)]; congr 1; omega
+    simp only [g, h1, h2]
+  rw [filterM'_ok _ g]
+  · congr 1
+    unfold nestedLoop
+    rw [List.filter_flatMap]
+    apply flatMap_congr'
+    intro a ha
+    rw [List.filter_map]
+    congr 1
+    apply List.filter_congr
+    intro b hb
+    exact hg a ha b hb
+  · intro row hrow
+    obtain ⟨a, ha, hrow⟩ := List.mem_flatMap.mp hrow
+    obtain ⟨b, hb, rfl⟩ := List.mem_map.mp hrow
+    rw [eq_on_concat w i j a b (hw a ha) hi (hj b hb) (hc a ha b hb), hg a ha b hb]
+
+
+
+/-- end to end: the hash join returns the SQL-defined multiset of the inner equi join -/
+theorem C05_hash_join_is_sql_join (w i j : Nat) (ls rs : List Row)
+    (hw : ∀ a ∈ ls, a.length = w) (hi : i < w) (hj : ∀ b ∈ rs, j < b.length)
+    (hc : ∀ a ∈ ls, ∀ b ∈ rs, keysComparable (a[i]?.getD .null) (b[j]?.getD .null)) :
+    ∃ out, Sql.filterM' (fun row => do Sql.isTrue (← (Expr.bin .eq (.col i) (.col (w + j))).eval row))
+        (ls.flatMap (fun a => rs.map (fun b => a ++ b))) = .ok out ∧
+      (hashJoinInner (fun a => a[i]?.getD .null) (fun b => b[j]?.getD .null) ls rs).Perm out :=
+  ⟨_, C05_sql_equi_join_is_nested w i j ls rs hw hi hj hc, C05_hash_inner_eq_nested _ _ ls rs⟩
+
+/-- non-vacuity of the hypotheses: NULL keys, duplicates, two-column rows -/
+example : (∀ a ∈ [[Value.int 1, .str "x"], [.null, .str "y"]], a.length = 2) ∧
+    (∀ a ∈ [[Value.int 1, .str "x"], [.null, .str "y"]], ∀ b ∈ [[Value.int 1], [.null], [.int 1]],
+      keysComparable (a[0]?.getD .null) (b[0]?.getD .null)) := by
+  constructor
+  · intro a ha; simp at ha; rcases ha with rfl | rfl <;> rfl
+  · intro a ha b hb; simp at ha hb
+    rcases ha with rfl | rfl <;> rcases hb with rfl | rfl | rfl <;> simp [keysComparable, Value.cmp?]
+
+
 /-- non-vacuity: duplicates, a NULL key on each side -/
 example : hashJoinInner (fun r => r.headD .null) (fun r => r.headD .null)
       [[.int 1], [.null], [.int 1]] [[.int 1], [.null]] = [[.int 1, .int 1], [.int 1, .int 1]] ∧
